@@ -289,37 +289,6 @@ def e1 : Block :=
 
 local macro "sorted_tac" : tactic => `(tactic| simp [Sorted, e0, e1, blk, Diff.empty, KOrd.lt])
 
-def nodeOf (r : Except Err Node) : Node := match r with | .ok n => n | .error _ => Node.init
-theorem eq_ok_nodeOf {r : Except Err Node} (h : r.toOption.isSome = true) : r = .ok (nodeOf r) := by
-  cases r with
-  | ok n => rfl
-  | error e => cases h
-
-theorem withRoots_eq (cfg : Cfg) (nd : Node) (b : Block) :
-    ∃ r1 r2, withRoots cfg nd b = { b with oldRoot := r1, newRoot := r2 } := by
-  unfold withRoots
-  dsimp only
-  split
-  · exact ⟨_, _, rfl⟩
-  · exact ⟨_, _, rfl⟩
-
-/-- `StoreOK` does not look at the two roots. -/
-theorem storeOK_withRoots {cfg : Cfg} {nd : Node} {b : Block} (ok : StoreOK cfg nd b) :
-    StoreOK cfg nd (withRoots cfg nd b) := by
-  obtain ⟨r1, r2, h⟩ := withRoots_eq cfg nd b
-  rw [h]
-  exact ⟨⟨⟨ok.block.fresh.hash, ok.block.fresh.txs, ok.block.fresh.msgs⟩, ok.block.casmFresh, ok.block.migVer,
-      ok.block.dDep, ok.block.dRep, ok.block.dNon, ok.block.dSto, ok.block.dDecl, ok.block.dMig, ok.block.dDefs,
-      ok.block.depNotSys, ok.block.known0, ok.block.decl1, ok.block.defsListed⟩,
-    ⟨ok.safe.noEmptySys, ok.safe.noSysEmptied, ok.safe.noDupDeclared, ok.safe.window⟩⟩
-
-theorem sys_cases {a : Nat} (h : isSys a = true) : a = 1 ∨ a = 2 := by
-  simpa [isSys] using h
-
-theorem all_of_get {κ ν : Type} [DecidableEq κ] [KOrd κ] {m : Map κ ν} {P : κ → ν → Prop} (h : ∀ e ∈ m, P e.1 e.2) :
-    ∀ k v, Map.get m k = some v → P k v :=
-  fun k v hg => h (k, v) (mem_keys_of_get hg)
-
 private theorem e0_storeOK (cfg : Cfg) (hw : cfg.window = 4) : StoreOK cfg Node.init e0 where
   block :=
     { fresh := ⟨rfl, fun t _ => rfl, fun t _ m _ => rfl⟩,
@@ -344,14 +313,14 @@ private theorem e0_storeOK (cfg : Cfg) (hw : cfg.window = 4) : StoreOK cfg Node.
 
 def n1 (cfg : Cfg) : Node := nodeOf (fstore cfg Node.init e0)
 
-theorem n1_stored_legacy : store legacyCfg Node.init (withRoots legacyCfg Node.init e0) = .ok (n1 legacyCfg) :=
+private theorem n1_stored_legacy : store legacyCfg Node.init (withRoots legacyCfg Node.init e0) = .ok (n1 legacyCfg) :=
   eq_ok_nodeOf (r := fstore legacyCfg Node.init e0) (by decide)
-theorem n1_stored_new : store newCfg Node.init (withRoots newCfg Node.init e0) = .ok (n1 newCfg) :=
+private theorem n1_stored_new : store newCfg Node.init (withRoots newCfg Node.init e0) = .ok (n1 newCfg) :=
   eq_ok_nodeOf (r := fstore newCfg Node.init e0) (by decide)
 
-theorem n1_good_legacy : Good legacyCfg (n1 legacyCfg) :=
+private theorem n1_good_legacy : Good legacyCfg (n1 legacyCfg) :=
   .store .init (storeOK_withRoots (e0_storeOK legacyCfg rfl)) n1_stored_legacy
-theorem n1_good_new : Good newCfg (n1 newCfg) :=
+private theorem n1_good_new : Good newCfg (n1 newCfg) :=
   .store .init (storeOK_withRoots (e0_storeOK newCfg rfl)) n1_stored_new
 
 private theorem e1_storeOK_legacy : StoreOK legacyCfg (n1 legacyCfg) e1 where
@@ -379,7 +348,7 @@ private theorem e1_storeOK_legacy : StoreOK legacyCfg (n1 legacyCfg) e1 where
       window := Or.inr (by decide) }
 
 def n2_legacy : Node := nodeOf (fstore legacyCfg (n1 legacyCfg) e1)
-theorem n2_stored_legacy : store legacyCfg (n1 legacyCfg) (withRoots legacyCfg (n1 legacyCfg) e1) = .ok n2_legacy :=
+private theorem n2_stored_legacy : store legacyCfg (n1 legacyCfg) (withRoots legacyCfg (n1 legacyCfg) e1) = .ok n2_legacy :=
   eq_ok_nodeOf (r := fstore legacyCfg (n1 legacyCfg) e1) (by decide)
 
 /-- the instance of `revert_store_id` for this block (its hypotheses are all discharged) -/
@@ -415,7 +384,7 @@ private theorem e1_storeOK_new : StoreOK newCfg (n1 newCfg) e1 where
       window := Or.inr (by decide) }
 
 def n2_new : Node := nodeOf (fstore newCfg (n1 newCfg) e1)
-theorem n2_stored_new : store newCfg (n1 newCfg) (withRoots newCfg (n1 newCfg) e1) = .ok n2_new :=
+private theorem n2_stored_new : store newCfg (n1 newCfg) (withRoots newCfg (n1 newCfg) e1) = .ok n2_new :=
   eq_ok_nodeOf (r := fstore newCfg (n1 newCfg) e1) (by decide)
 
 /-- the instance of `revert_store_id` for this block (its hypotheses are all discharged) -/
